@@ -174,6 +174,7 @@ def run(ctx):
     rule_provenance(ctx)
     rule_nopitch(ctx)
     X.rule_divs_at_span_start(ctx)
+    X.rule_counter_consecutive(ctx)
     rule_duplicates(ctx)
     fs = [ctx.prog.functions[f"{S}:{n}"] for n in NORMALISERS if f"{S}:{n}" in ctx.prog.functions] + \
          [ctx.prog.func(f"{M}:{n}") for n in ("estimate_symbolic_duration", "symbolic_to_numeric_duration", "find_tie_split", "order_splits",
